@@ -878,4 +878,12 @@ func genKv(g *Gen) {
 		s.deepHistory()
 	}
 	s.exhaustive(g.Scale(2, 5))
+	// round 4: kept bucket handles, BucketMeta / FetchBucket cache, read transaction used after its end
+	for i := g.Scale(40, 1000); i > 0; i-- {
+		s.fetchCacheScenario()
+	}
+	for i := g.Scale(250, 8000); i > 0; i-- {
+		s.handleHistory()
+	}
+	s.exhaustiveHandles(g.Scale(2, 4))
 }
